@@ -39,6 +39,8 @@ func c20Special(r *drv.Run, check func(tree *refNode, base string, pattern strin
 			base+"/a"+sp+"*", base+"/*"+sp+"1.txt")
 	}
 	pats = append(pats, "a/*.txt", "*/b", "*", "a*")
+	// a doubled (tripled) separator is one separator: every selected file once
+	pats = append(pats, "a//*.txt", "a//1.txt", "a///b", "c//*", "a//*", base+"//a/*.txt", base+"/a//b", "a//d.log", "c//d.log", "a////1.txt")
 	r.Exec(len(pats), drv.ExecOpts{Batch: 60}, func(i int) *drv.Item {
 		p := pats[i]
 		return &drv.Item{Case: wire.Case{Op: "glob", Pattern: p, PatternB: []byte(p), Dir: base}, Check: func(res *wire.Result) {
